@@ -333,15 +333,27 @@ def _int_eval(e, env):
     raise _NoEval()
 
 
-def int_formula_verdict(e, var, spec, lo=0, hi=96):
+def int_formula_verdict(e, var, spec, lo=0, hi=96, conds=()):
     """True when expr(var=n) == spec(n) for every integer n in [lo, hi], (False, n, got, want)
     at the first difference, None when the expression is not a closed integer formula of `var`.
+    `conds`: [(test expression, polarity)] of the path the expression is computed on; values of
+    n for which a (closed) condition does not hold are not this path's business.
     (The formulas in question are piecewise linear with period <= 4; the range is ample.)"""
     names = {x.id for x in ast.walk(e) if isinstance(x, ast.Name)}
     free = {n for n in names if n not in (var, "int", "round", "math", "np", "numpy", "abs", "min", "max", "divmod", "__component__")}
     if free:
         return None
     for n in range(lo, hi + 1):
+        on_path = True
+        for test, pol in conds:
+            try:
+                if bool(_int_eval(test, {var: n})) != bool(pol):
+                    on_path = False
+                    break
+            except _NoEval:
+                pass  # a condition about something else
+        if not on_path:
+            continue
         try:
             got = _int_eval(e, {var: n})
         except _NoEval:
